@@ -1,6 +1,7 @@
 CONSTANTS
  Mode = "gen"
  HistLen = 4
+ LenientRelabel = FALSE
  RestartSets = {{1}, {2}, {3}}
 INIT RInit
 NEXT RNext
